@@ -6,6 +6,7 @@ every worker owns a copy of /verif (under /var/tmp/vpool/<k>) and a scratch work
 HEAD (under /var/tmp/rpool/<k>); the check is pointed at the worktree through VERIF_REPO.
 
 job = <name>=<patch>:<PID>[,<PID>...][:<demo>]   e.g. C01d_1=/tmp/wt_C01d/mut_C01d_1.diff:C01
+      (patch "-" = no change: runs the checks on copies against an unchanged worktree, e.g. all=-:C01,C02)
 Without jobs: every /verif/seeded/<id>_<k>/patch.diff against the check of its property.
 With --confirm and a demo: also checks that the suite passes with the patch, and that the demo
 fails with / passes without it.
@@ -53,6 +54,9 @@ def teardown(n):
     sh(f"git -C {REPO} worktree prune")
 
 
+confirm_only = False
+
+
 def run_job(job, slots, tier, confirm):
     name, patch, pids, demo = job
     k = slots.get()
@@ -62,17 +66,20 @@ def run_job(job, slots, tier, confirm):
         res = [name]
         env = dict(os.environ, PYTHONPATH=r, PYTHONHASHSEED="0", PYTHONDONTWRITEBYTECODE="1")
         if confirm and demo:
-            d0 = subprocess.run(["/venv/bin/python", demo], env=env, cwd=r, capture_output=True).returncode
-        x = sh(f"git -C {r} apply {patch}")
+            # the demo is copied into the worktree: python puts the script's directory first on sys.path
+            ldemo = os.path.join(r, os.path.basename(demo))
+            shutil.copy(demo, ldemo)
+            d0 = subprocess.run(["/venv/bin/python", ldemo], env=env, cwd=r, capture_output=True).returncode
+        x = sh(f"git -C {r} apply {patch}") if patch != "-" else sh("true")
         if x.returncode:
             return f"{name} APPLY-FAIL {x.stderr.strip()[:200]}"
         if confirm and demo:
-            d1 = subprocess.run(["/venv/bin/python", demo], env=env, cwd=r, capture_output=True).returncode
+            d1 = subprocess.run(["/venv/bin/python", ldemo], env=env, cwd=r, capture_output=True).returncode
             s = subprocess.run(["/venv/bin/python", "-m", "pytest", "-q", "-p", "no:cacheprovider", "-x"],
                                env=env, cwd=r, capture_output=True, text=True)
             last = (s.stdout.strip().splitlines() or ["?"])[-1]
             res.append(f"[demo without={d0} with={d1}; suite: {last}]")
-        for pid in pids:
+        for pid in ([] if confirm_only else pids):
             e = dict(os.environ, VERIF_REPO=r)
             x = subprocess.run([f"{v}/check", pid, "--tier", tier], env=e, cwd=v, capture_output=True, text=True)
             vio = [l for l in x.stdout.splitlines() if l.startswith("VIOLATION")]
@@ -102,6 +109,9 @@ def main():
             tier = args.pop(0)
         elif a == "--confirm":
             confirm = True
+        elif a == "--confirm-only":
+            global confirm_only
+            confirm = confirm_only = True
         else:
             name, rest = a.split("=", 1)
             parts = rest.split(":")
